@@ -2,6 +2,7 @@
 #![allow(dead_code)]
 
 mod engine_life;
+mod engine_miri;
 mod engine_model;
 mod engine_hist;
 mod engine_jbytes;
@@ -107,6 +108,8 @@ fn main() {
         "jbytes" => engine_jbytes::main(&args),
         "jbytes-replay" => engine_jbytes::replay_main(&args),
         "jbytes-worker" => engine_jbytes::worker_main(&args),
+        "miri-codec" => engine_miri::codec_main(&args),
+        "miri-db" => engine_miri::db_main(&args),
         "trace" => engine_trace::main(&args),
         "trace-child" => engine_trace::child_main(&args),
         "trace-replay" => engine_trace::replay_main(&args),
